@@ -211,14 +211,14 @@ def prove(pid, info):
                 axioms=sorted(set(axioms)), bad_axioms=bad_axioms, output=out[-6000:], failing=failing, wall_s=dt)
 
 
-def build_harness():
+def build_harness(pid):
     with Lock("cargo"):
-        rc, out = sh(["cargo", "build", "--offline"], cwd=HARNESS, timeout=3000)
+        rc, out = sh(["cargo", "build", "--offline", "-p", pid.lower()], cwd=HARNESS, timeout=3000)
     return rc == 0, out
 
 
 def run_harness(pid, seed, tier, outdir, replay=None, scale=1):
-    cmd = [os.path.join(HARNESS, "target/debug/harness"), pid, "--seed", str(seed), "--tier", tier,
+    cmd = [os.path.join(HARNESS, "target/debug/" + pid.lower()), "--seed", str(seed), "--tier", tier,
            "--out", outdir, "--scale", str(scale)]
     if replay:
         cmd += ["--replay", replay]
@@ -414,7 +414,7 @@ def main():
     results = {}
     known_hits, propfails, disagrees, missing, errors = {}, [], [], [], []
     if info["harness"]:
-        ok, out = build_harness()
+        ok, out = build_harness(pid)
         if not ok:
             print("INFRA: /repo does not build with the verification harness (nothing decided):\n" + out[-4000:])
             write_evidence(pid, tier, seed, t0, pr, None, {}, None, 0, ["harness build failed"])
